@@ -661,11 +661,11 @@ properties[Profiles.CSS3_BASIC_USER_INTERFACE] = {
 }
 
 # CSS Box Module Level 3
-macros[Profiles.CSS3_BOX] = {'overflow': macros[Profiles.CSS_LEVEL_2]['overflow']}
+macros[Profiles.CSS3_BOX] = {'overflow-keyword': 'visible|hidden|scroll|auto'}
 properties[Profiles.CSS3_BOX] = {
-    'overflow': '{overflow}{w}{overflow}?|inherit',
-    'overflow-x': '{overflow}|inherit',
-    'overflow-y': '{overflow}|inherit',
+    'overflow': r'{overflow-keyword}(\s+{overflow-keyword})?|inherit',
+    'overflow-x': '{overflow-keyword}|inherit',
+    'overflow-y': '{overflow-keyword}|inherit',
 }
 
 # CSS Color Module Level 3
